@@ -20,6 +20,16 @@ For each rule of ``sanitize_registry[FP]`` that the property names
      in-place ``clear()`` (or any other mutation outside ``filter``) empties /
      refills the ``pp_info`` of a source sanitised earlier and its stripped text
      is re-inserted into the wrong statements or not at all.
+ R5  the alternative that *protects* preprocessor directives from the string-macro
+     rule (the ``pp`` group of ``STRING_PP_DIRECTIVES``, returned unchanged by the
+     replacement) admits leading blanks: ``^`` is followed by an optional
+     whitespace repeat before ``#`` -- cpp and fparser accept indented
+     directives, and a directive that is not recognised is rewritten like a
+     Fortran line.
+ R6  the re-insertion callbacks locate the continuation lines independently of
+     the removed text: an index into ``source.string`` is never derived from the
+     length of the *restored* text (which contains the group the sanitiser
+     removed, so it is longer than the first line of a sanitised source).
 Not decided: correctness of the text surgery inside the re-insertion callbacks.
 """
 import ast
@@ -225,8 +235,80 @@ def run(ctx):
     si_src = ast.unparse(m.get_function(FILE, 'sanitize_input').node)
     ctx.judge('R4', 'sanitize_input hands out rule.info', nontrivial=X.has(si_src, 'pp_info[name] = rule.info'))
 
+    run_r56(ctx, m, mod, reg)
+
+
+def run_r56(ctx, m, mod, reg):
+    import re._parser as sre
+    ctx.rule('R5', 'STRING_PP_DIRECTIVES: the protecting alternative is ^ <optional blanks> # ...')
+    ctx.rule('R6', 'reinsert_* callbacks: no index into source.string is computed from len(<restored text>)')
+    call, kw = reg['STRING_PP_DIRECTIVES']
+    kind, pat, flags = _pattern(m, mod, kw.get('match') or call.args[0])
+    where = f'{mod.relpath}:{call.lineno}'
+    if kind != 'regex':
+        raise AnalysisError('STRING_PP_DIRECTIVES is no longer a regular expression')
+    alts = _alternatives(sre.parse(pat, flags))
+    prot = None
+    for alt in alts:
+        items = list(alt)
+        if len(items) == 1 and str(items[0][0]) == 'SUBPATTERN' and items[0][1][0] is not None:
+            gname = {v: k for k, v in sre.parse(pat, flags).state.groupdict.items()}.get(items[0][1][0])
+            if gname == 'pp':
+                prot = list(items[0][1][3])
+    if prot is None:
+        raise AnalysisError('STRING_PP_DIRECTIVES: the directive-protecting alternative (group pp) was not found')
+    ok = len(prot) >= 3 and str(prot[0][0]) == 'AT' and str(prot[1][0]) in ('MAX_REPEAT', 'MIN_REPEAT') and prot[1][1][0] == 0 \
+        and prot[1][1][1] is sre.MAXREPEAT and any(str(o) == 'IN' and any(str(c) == 'CATEGORY' and 'SPACE' in str(v) for c, v in a) for o, a in prot[1][1][2]) \
+        and str(prot[2][0]) == 'LITERAL' and prot[2][1] == ord('#')
+    if ok:
+        ctx.judge('R5', 'STRING_PP_DIRECTIVES:pp admits leading blanks', facts={'pattern': pat[:60]})
+    else:
+        ctx.violation('R5', 'STRING_PP_DIRECTIVES:pp:no-leading-blanks', where,
+                      f'the alternative that protects directives ({pat[:50]!r}...) does not start with ^\\\\s*#: an indented directive such as '
+                      f'`  #define STAMP __DATE__` is treated as a Fortran line and its macro is enquoted')
+    n6 = 0
+    for fname, f in mod.functions.items():
+        if not fname.startswith('reinsert_'):
+            continue
+        # names bound to text assembled from match groups
+        built = {}
+        for a in ast.walk(f.node):
+            if isinstance(a, (ast.Assign, ast.AugAssign)):
+                t = a.targets[0] if isinstance(a, ast.Assign) else a.target
+                if isinstance(t, ast.Name) and any(isinstance(x, ast.Subscript) and isinstance(x.value, ast.Name) and x.value.id == 'match'
+                                                   for x in ast.walk(a.value)):
+                    built.setdefault(t.id, []).append(a)
+        mvar = 'match'
+        for sl in ast.walk(f.node):
+            if isinstance(sl, ast.Subscript) and ast.unparse(sl.value).endswith('.string') and isinstance(sl.slice, ast.Slice):
+                n6 += 1
+                bounds = [b for b in (sl.slice.lower, sl.slice.upper) if b is not None]
+                names = set()
+                for b in bounds:
+                    for e in [b] + [a.value for a in ast.walk(f.node) if isinstance(a, ast.Assign) and isinstance(b, ast.Name)
+                                    and any(isinstance(t, ast.Name) and t.id == b.id for t in a.targets)]:
+                        for c in ast.walk(e):
+                            if isinstance(c, ast.Call) and isinstance(c.func, ast.Name) and c.func.id == 'len' and c.args and isinstance(c.args[0], ast.Name):
+                                names.add(c.args[0].id)
+                bad = sorted(n_ for n_ in names if len(built.get(n_, [])) >= 1 and sum(
+                    1 for a in built[n_] for x in ast.walk(a.value) if isinstance(x, ast.Subscript) and isinstance(x.value, ast.Name) and x.value.id == mvar) >= 3)
+                inst = f'{fname}:{ast.unparse(sl)[:50]}'
+                if bad:
+                    ctx.violation('R6', f'{fname}:offset-from-restored-text', f'{mod.relpath}:{sl.lineno}',
+                                  f'`{ast.unparse(sl)}` indexes the stored source by the length of `{bad[0]}`, the *restored* text, which contains the '
+                                  f'group the sanitiser removed: when the stored source is the sanitised text (ProgramUnit.from_source) the slice '
+                                  f'starts inside the continuation lines and chops untargeted arguments', instance=inst)
+                else:
+                    ctx.judge('R6', inst)
+    ctx.floor('R6', 'slices of the stored source in reinsert_* callbacks', n6, 2)
+
 
 MUTANTS = [
+    Mutant('protected-directive-column-one', FILE, "r'(?P<pp>^\\s*#.*__(?:FILE|FILENAME|DATE|VERSION)__)|'", "r'(?P<pp>^#.*__(?:FILE|FILENAME|DATE|VERSION)__)|'",
+           expect=('R5', 'no-leading-blanks')),
+    Mutant('continuation-offset-from-restored-text', FILE,
+           "                    cont_line_index = source.string.find(match['post']) + len(match['post'])\n                    text += source.string[cont_line_index:].rstrip()",
+           "                    text += source.string[len(text):].rstrip()", expect=('R6', 'offset-from-restored-text')),
     Mutant('reset-clears-in-place', FILE, "    def reset(self):\n        self._info = defaultdict(list)\n", "    def reset(self):\n        self._info.clear()\n",
            expect=('R4', 'PPRule.reset')),
     Mutant('open-rule-unanchored', FILE, "match=re.compile((r'(?P<ws>^\\s*)(?P<pre>OPEN\\s*\\(.*?)'",
